@@ -2079,7 +2079,7 @@ func (d *Data) SendBlocksSpecific(ctx *datastore.VersionedCtx, w http.ResponseWr
 					// lock shared resource
 					mutex.Lock()
 					defer mutex.Unlock()
-					d.SendSerializedBlock(w, xloc, yloc, zloc, value, compression)
+					err = d.SendSerializedBlock(w, xloc, yloc, zloc, value, compression)
 				}
 			}
 		}(int32(xloc), int32(yloc), int32(zloc), isprefetch, finishedRequests)
